@@ -104,6 +104,16 @@ func vC06Bin[T vNum]() {
 	if pan {
 		return
 	}
+	if (mode == "reuse" || mode == "incr" || mode == "reuseA" || mode == "reuseB") && d.RequiresIterator() && err != nil {
+		// a non-contiguous view as destination may be refused (its storage window is larger than the result);
+		// then nothing may have been written anywhere
+		vC06Unchanged(a, aw, "refused-a-unchanged")
+		if b != nil {
+			vC06Unchanged(b, bw, "refused-b-unchanged")
+		}
+		vC06Unchanged(d, dw, "refused-dest-unchanged")
+		return
+	}
 	if op == "Div" && vIsInt[T]() {
 		// known finding: the iterator-path dispatcher drops the kernel's error (layout-dependent outcome)
 		la, lb := vCfgStr("la"), vCfgStr("lb")
@@ -114,16 +124,6 @@ func vC06Bin[T vNum]() {
 			return
 		}
 	} else {
-		if (mode == "reuse" || mode == "incr" || mode == "reuseA" || mode == "reuseB") && d.RequiresIterator() && err != nil {
-			// a non-contiguous view as destination may be refused (its storage window is larger than the result);
-			// then nothing may have been written anywhere
-			vC06Unchanged(a, aw, "refused-a-unchanged")
-			if b != nil {
-				vC06Unchanged(b, bw, "refused-b-unchanged")
-			}
-			vC06Unchanged(d, dw, "refused-dest-unchanged")
-			return
-		}
 		vAssert(err == nil, "no-error")
 		if err != nil {
 			return
@@ -212,8 +212,10 @@ func vC06Bin[T vNum]() {
 	// every tensor other than the designated destination is unchanged
 	if rd != a {
 		as := vSnapshot[T](a)
+		// known finding: the incr kernels' one-element case accumulates into operand a first
+		kfIncr1 := mode == "incr" && n == 1
 		for k := range aw {
-			vAssert(vSameBits(as[k], aw[k]), "operand-a-unchanged")
+			vAssertKF(vSameBits(as[k], aw[k]), "operand-a-unchanged", "KF-C07-incr1", kfIncr1)
 		}
 	}
 	if form == "TT" && rd != b {
